@@ -10,7 +10,7 @@ let bafrom (toks : string list) : string =
     let endian = if e = "B" then Bytes.BE else Bytes.LE in
     (match BinFormat.from_bytes endian (parse_b b) with
      | Ok a ->
-       let reser = (match BinFormat.serialize Checked a with Ok f -> "ok:" ^ show_b f | Err _ -> "err" | Panic _ -> "PANIC") in
+       let reser = (match BinFormat.serialize_k name_key Checked a with Ok f -> "ok:" ^ show_b f | Err _ -> "err" | Panic _ -> "PANIC") in
        "ok" ^ D_ba.state a 1 ^ " reser=" ^ reser
      | Err _ -> "err"
      | Panic _ -> "PANIC")
